@@ -105,7 +105,7 @@ def run_job(j):
     surface = xr.DataArray(data, dims=["y", "x"], coords={"y": ys, "x": xs})
     case = {"H": H, "W": W, "cross": cross, "conn": j["conn"], "yax": j["yax"], "xax": j["xax"],
             "sp": j["sp"], "gp": j["gp"], "snapS": int(j.get("snapS", 0)), "snapG": int(j.get("snapG", 0)),
-            "tag": j.get("tag", ""), "job": j}
+            "tag": j.get("tag", "")}
     want_ev = bool(j.get("events")) and INTERP
     _seen.clear()
     _events.clear()
